@@ -239,4 +239,9 @@ theorem source_setActivePartitionMap : GeneratedSrc.setActivePartitionMap = Expe
 theorem source_refreshAssignments : GeneratedSrc.refreshAssignments = ExpectedSrc.refreshAssignments := by rfl
 theorem source_partitionAssignmentsChanged : GeneratedSrc.partitionAssignmentsChanged = ExpectedSrc.partitionAssignmentsChanged := by rfl
 
+
+/-! ### functions the model's assumptions rest on (construction, wiring, surrounding calls) are unchanged -/
+theorem source_newRecoveryTracker : GeneratedSrc.newRecoveryTracker = ExpectedSrc.newRecoveryTracker := by rfl
+theorem source_rcShutdown : GeneratedSrc.rcShutdown = ExpectedSrc.rcShutdown := by rfl
+
 end Firebolt.C07
